@@ -62,12 +62,17 @@ def unit_vectors(seed, n, D, *tag, complex_=True, max_cos=None, min_cos=None):
 
 
 def generic_data(seed, shape, *tag, complex_=True, min_norm=0.2):
-    """Generic-position observations (..., N, D) without small frames."""
-    for attempt in range(50):
-        r = rng(seed, 'data', shape, attempt, *tag)
-        y = cnormal(r, shape) if complex_ else r.standard_normal(shape)
-        if np.linalg.norm(y, axis=-1).min() >= min_norm:
+    """Generic-position observations (..., N, D) without small frames (offending frames are
+    re-drawn, deterministically)."""
+    r = rng(seed, 'data', shape, 0, *tag)
+    y = cnormal(r, shape) if complex_ else r.standard_normal(shape)
+    for attempt in range(1, 200):
+        small = np.linalg.norm(y, axis=-1) < min_norm
+        if not small.any():
             return y
+        r2 = rng(seed, 'data', shape, attempt, *tag)
+        z = cnormal(r2, shape) if complex_ else r2.standard_normal(shape)
+        y[small] = z[small]
     raise HarnessError(f'cannot vet generic data {shape} {tag}')
 
 
